@@ -3,7 +3,8 @@ import json
 import shutil
 
 from vlib.core import write_cfg, count_lines, VERIF
-from props.C03 import clone_dir, par_tlc, judge_trace, names_jobs
+from props.C03 import (clone_dir, par_tlc, judge_trace, names_jobs, state_jobs, names_state_jobs, check_refuted,
+                       race_phase)
 
 LEVEL = "model_checking"
 META = {
@@ -19,7 +20,7 @@ META = {
                   "20 digits, sign, junk, empty) are emitted by TLC with the verdict of the declarative grammar and replayed under >=3 "
                   "concretisations; the deciding oracle is netip.ParseAddr / netip.ParseAddrPort / ValidateHostname / "
                   "ValidateHostnameLabel on the same concrete string. TLC proves grammar == parser state machine on all enumerated "
-                  "strings. Seeded mutation-based inputs are re-judged by the TLA+ grammar.",
+                  "strings. Seeded mutation-based inputs are re-judged by the TLA+ grammar. No hidden state: IPTextState.tla / NamesState.tla prove 'every call returns the grammar's verdict of its argument' for stateless and exact-memo designs and refute it for a memo shared between validators, a case-folding memo and an unsynchronised memo; the harness calls every validator twice per input, replays a sequential second pass over the shuffled inputs (both validators in both orders, interleaved with near-miss texts; accepted names followed and preceded by their U+212A/U+017F/case-flip look-alikes), each call judged by the reference parser, and runs goroutines under -race.",
     "level_note": "Uniformity hypothesis: hex letters (either case) are interchangeable, as are non-grammar bytes; decimal digits are kept "
                   "literally at character level. Exhaustive only up to the stated bounds; netip and idna are trusted references.",
 }
@@ -73,9 +74,15 @@ def run(ctx):
         tok_jobs.append({"dir": dt, "module": "IPTokGen", "cfg": "run.cfg", "label": "ip-gen-tok-" + tag, "timeout": 2400})
 
     njobs = names_jobs(ctx, dn, True, "twins", small=q)   # thorough: the quick-size C03 families
+    # "no hidden state" (IPTextState.tla, NamesState.tla): proved for the stateless and the exact-memo
+    # designs, refuted for shared / case-folding / unsynchronised memos.
+    sjobs = state_jobs(ctx, d, "IPTextState", "ip", {"none": True, "exact": True, "shared": False, "unsync": False},
+                       {"Procs": "{1, 2}", "MaxCalls": 2})
+    sjobs += names_state_jobs(ctx, dn, q, "twins", kinds='{"ishost", "dom"}')
     # longest first
-    order = tok_jobs[:1] + list(reversed(char_jobs)) + jobs + njobs + tok_jobs[1:]
-    par_tlc(ctx, order, parallel=4)
+    order = tok_jobs[:1] + list(reversed(char_jobs)) + jobs + njobs + tok_jobs[1:] + sjobs
+    results = par_tlc(ctx, order, parallel=5)
+    check_refuted(ctx, sjobs, results[len(order) - len(sjobs):])
 
     # ---- 3: replay ---------------------------------------------------------
     total = {}
@@ -120,6 +127,11 @@ def run(ctx):
     ctx.extra["trace_lines_judged"] = j1 + j2
     ctx.extra["trace_inexpressible_skipped"] = s["inexpressible_skipped"]
     ctx.extra["trace_accepted"] = {"ip": s["accepted_ip"], "ipport": s["accepted_ipport"]}
+    ctx.extra["history_inputs"] = total.get("history_inputs", 0)
+
+    # ---- 5: goroutines under the race detector ------------------------------
+    race_phase(ctx, "c02", (6, 30) if q else (12, 300),
+               "IsValidIPString / IsValidIPPortString / IsValidHostname / IsValidHostnameLabel")
 
     # shortest failing inputs first (the orchestrator prints the first 20)
     ctx.mismatches.sort(key=lambda m: (len(m["key"]), m["key"]))
